@@ -342,6 +342,30 @@ impl Strong {
                     (How::AskJoin, Ty::Job) => erased_ask_join(&*b.ask_j, msg, id).await,
                     (How::AskJoin, Ty::A) => rep(b.ask_a.ask(MsgA(msg)).await, id),
                     (How::AskJoin, Ty::B) => rep(b.ask_b.ask(MsgB(msg)).await, id),
+                    (How::TellC(t), Ty::A) => match tokio::time::timeout(world.dur(t), b.tell_a.tell(MsgA(msg))).await {
+                        Ok(r) => unit(r, id),
+                        Err(_) => Res::Abandoned,
+                    },
+                    (How::TellC(t), Ty::B) => match tokio::time::timeout(world.dur(t), b.tell_b.tell(MsgB(msg))).await {
+                        Ok(r) => unit(r, id),
+                        Err(_) => Res::Abandoned,
+                    },
+                    (How::TellC(t), Ty::Job) => match tokio::time::timeout(world.dur(t), b.tell_j.tell(JobMsg(msg))).await {
+                        Ok(r) => unit(r, id),
+                        Err(_) => Res::Abandoned,
+                    },
+                    (How::AskC(t), Ty::A) => match tokio::time::timeout(world.dur(t), b.ask_a.ask(MsgA(msg))).await {
+                        Ok(r) => rep(r, id),
+                        Err(_) => Res::Abandoned,
+                    },
+                    (How::AskC(t), Ty::B) => match tokio::time::timeout(world.dur(t), b.ask_b.ask(MsgB(msg))).await {
+                        Ok(r) => rep(r, id),
+                        Err(_) => Res::Abandoned,
+                    },
+                    (How::AskC(t), Ty::Job) => match tokio::time::timeout(world.dur(t), b.ask_j.ask(JobMsg(msg))).await {
+                        Ok(r) => jh(r, id),
+                        Err(_) => Res::Abandoned,
+                    },
                     (h, _) => self.send_blocking(h, msg, world),
                 }
             }
